@@ -44,6 +44,11 @@ for _w in [b"on", b"off", b"cycle", b"reset", b"flash", b"unflash", b"status", b
 for _n in (17, 21, 24, 33, 70):
     JUNK += [b"status t[" + b"0" * _n + b"1]", b"on t" + b"0" * _n + b"1", b"status n[" + b"0" * _n + b"-" + b"0" * (_n - 1) + b"2]"]
 
+# more comma-separated ranges inside ONE bracket pair than hostlist.c's fixed array holds (MAX_RANGES = 10240): refused, not written past the array
+for _n in (10239, 10240, 10241, 10300):
+    JUNK.append(b"on q[" + b",".join(b"%d" % (2 * i) for i in range(_n)) + b"]")
+JUNK.append(b"status q[" + b",".join(b"%d-%d" % (3 * i, 3 * i + 1) for i in range(10241)) + b"]")
+
 LINEMAX = 131072          # cross-checked against Gen/GenConsts.v in correspond()
 
 
@@ -396,6 +401,12 @@ def mon_c06_lines(sess, sc):
     lines = data.split(b"\n")[:-1]
     reps = [r for r in (pmcheck.split_replies(sess.client_out.get(k, b"")) or []) if isinstance(r[0], int)]
     codes = [r[0] for r in reps]
+    if 204 in codes:
+        # C06: a bad line is answered parse / hostlist / too long / unknown / no such nodes - never `204 Internal powermand error`
+        # (F42: a list with more than MAX_RANGES ranges in one bracket was, depending on the errno an EARLIER request had left behind)
+        i = codes.index(204)
+        bad.append(("bad-line-reply", "internal-error", "client %d: reply #%d is `%s` (its request lines: %s)" % (
+            k, i, b" ".join(reps[i][1][-1:])[:120].decode("latin-1"), [l[:60] for l in lines[max(0, i - 1):i + 1]])))
     if 208 in codes or 101 in codes or len(codes) != len(lines):
         return bad                      # count mismatches are mon_protocol's business
     # The length gate comes BEFORE the busy test in _parse_input: an over-long line is answered 203 at once even while the
@@ -496,7 +507,10 @@ def hostile_scenario(rng):
         # daemon sees the end-of-file; they must still be written before the client is closed
         k2 = sc.tags["ncli"] + 1
         lines2 = b"".join(rng.choice([b"nodes", b"help", b"device", b"bogus", b"on [", b"exprange", b"status zz[1-2]"]) + b"\r\n" for _ in range(rng.randint(1, 4)))
-        extra += [("connect", k2), ("wait", k2), ("send", k2, lines2), ("raw", ["EOF c%d" % k2]), ("sleep", 200000)]
+        if rng.random() < 0.5:
+            # ... or the last line is a command for a DEVICE: it is still in progress when the daemon sees the end-of-file, and is owed its terminal reply
+            lines2 += rng.choice([b"status", b"on " + rng.choice(sc.cfg.all_nodes()).encode(), b"off " + rng.choice(sc.cfg.all_nodes()).encode()]) + b"\r\n"
+        extra += [("connect", k2), ("wait", k2), ("send", k2, lines2), ("raw", ["EOF c%d" % k2]), ("sleep", 200000), ("sleep", 2000000)]
         sc.tags["eager"] = k2
     if rng.random() < 0.12:
         # a device command and, in the same breath, an over-long line: the 203 overtakes the command's terminal line
